@@ -754,4 +754,98 @@ theorem reporting_none_at_report {hz n : Nat} {sched : Nat → Op}
     obtain ⟨m, f, b1, b2, b3⟩ := hseq j now ev hs j' now' ev' r.id a1 a2 a3
     exact a4 m f b1 b2 b3
 
+/-! ## the debt lasts until a report that covers it is committed -/
+
+/-- a property `Q` of the live subscription `id` survives every operation, provided the endings of its
+own contexts that put it back into the table (`keep`, `retry`, `unsent`) preserve it -/
+theorem field_step {s : State} (hu : UID s) (op : Op) {id : Nat} (Q : Sub → Prop)
+    (hnr : ∀ now ev, op ≠ .restart now ev) (hid : id < s.nextSubId)
+    (hfin : ∀ f c, op = .fin id f → finKeep f = true → c ∈ s.ctxs → c.sub.id = id → Q c.sub →
+      Q (finSub s.hz c f))
+    (h : ∀ x ∈ s.live, x.id = id → Q x) : ∀ y ∈ (s.step op).live, y.id = id → Q y := by
+  intro y hy hyid
+  cases op with
+  | change p => exact h y hy hyid
+  | add now fab peer mn' mx' ev =>
+    simp only [State.step, State.add] at hy
+    split at hy
+    · exact h y hy hyid
+    · simp only [State.live, List.map_append, List.map_cons, List.map_nil, List.mem_append,
+        List.mem_singleton] at hy
+      rcases hy with hy | hy | hy
+      · exact h y (by simp [State.live, hy]) hyid
+      · exact h y (by simp only [State.live, List.mem_append]; right; exact hy) hyid
+      · subst hy; simp only at hyid; omega
+  | report now ev =>
+    simp only [State.step] at hy
+    rcases report_shape (s := s) (now := now) (ev := ev) with h1 | ⟨i, sub, hs, h1⟩
+    · rw [h1] at hy; exact h y hy hyid
+    · rw [h1] at hy; exact h y ((live_reportTo now ev hs).mem_iff.mp hy) hyid
+  | fin id' f =>
+    simp only [State.step] at hy
+    rcases fin_live_origin hu hy with ⟨h1, _⟩ | ⟨c, hc, hcid, hk, rfl⟩
+    · exact h y h1 hyid
+    · have hidc : c.sub.id = id := by rw [← finSub_id s.hz c f]; exact hyid
+      have hcl : c.sub ∈ s.live := mem_live.mpr (Or.inr ⟨c, hc, rfl⟩)
+      have hff : id' = id := hcid.symm.trans hidc
+      subst hff
+      exact hfin f c rfl hk hc hidc (h c.sub hcl hidc)
+  | remove p =>
+    simp only [State.step] at hy
+    obtain ⟨cx, h1⟩ := remove_shape s p
+    rw [h1] at hy
+    obtain ⟨rem, hr⟩ := removeLoop_perm p (s.subs.length + 1) s.subs s.count
+    have : y ∈ s.live := by
+      simp only [rmTo, State.live, List.mem_append] at hy ⊢
+      rcases hy with hy | hy
+      · left; exact hr.mem_iff.mp (List.mem_append_right _ hy)
+      · right; exact hy
+    exact h y this hyid
+  | purge =>
+    simp only [State.step, State.purge] at hy
+    have : y ∈ s.live := by
+      repeat' split at hy
+      all_goals exact hy
+    exact h y this hyid
+  | persist => exact h y hy hyid
+  | restart now ev => exact absurd rfl (hnr now ev)
+
+/-- **at the moment a change is recorded every live subscription owes it**, and every context that is
+alive at that moment (a priming, a report begun earlier) has a snapshot below it -/
+theorem recorded_change_is_owed {s : State} (hwf : WF s) (p : Entry) :
+    (s.changed.nextId, p) ∈ (s.change p).log ∧
+    (∀ x ∈ (s.change p).live, x.seenAttr < s.changed.nextId) ∧
+    (∀ c ∈ (s.change p).ctxs, c.nextAttr < s.changed.nextId) :=
+  ⟨by simp [State.change], fun x hx => hwf.seenBelow x hx, fun c hc => (hwf.ctxMono c hc).2⟩
+
+/-- **the debt lasts until a covering report is committed**: if every live subscription `id` owes
+change `i` at step `k`, it still owes it at step `t` — unless, in between, a context of it whose
+snapshot is `≥ i` ended with `keep` or `unsent` (failed reports, the reports and purges of others,
+acknowledged reports whose snapshot predates the change do not end the debt) -/
+theorem owes_until_covering_commit {hz n : Nat} {sched : Nat → Op}
+    (hw : ∀ k, (stateAt hz n sched k).changed.nextId + 1 < U64) {k id i : Nat}
+    (hid : id < (stateAt hz n sched k).nextSubId)
+    (h0 : ∀ x ∈ (stateAt hz n sched k).live, x.id = id → x.seenAttr < i) :
+    ∀ (d : Nat), NoRestart sched k (k + d) →
+      (∀ u, k ≤ u → u < k + d → ∀ f c, sched u = .fin id f → c ∈ (stateAt hz n sched u).ctxs →
+        c.sub.id = id → f = .retry ∨ f = .drop ∨ c.nextAttr < i) →
+      (∀ x ∈ (stateAt hz n sched (k + d)).live, x.id = id → x.seenAttr < i) ∧
+      id < (stateAt hz n sched (k + d)).nextSubId
+  | 0, _, _ => ⟨h0, hid⟩
+  | d + 1, hnr, hfin => by
+    obtain ⟨ih1, ih2⟩ := owes_until_covering_commit hw hid h0 d (hnr.mono (Nat.le_refl _) (by omega))
+      (fun u h1 h2 => hfin u h1 (by omega))
+    have hr := hnr (k + d) (by omega) (by omega)
+    refine ⟨field_step (inv_stateAt hz n sched hw (k + d)).2.2 (sched (k + d)) (fun x => x.seenAttr < i) hr ih2
+      ?_ ih1, Nat.lt_of_lt_of_le ih2 (nextSubId_step_le _ _ hr)⟩
+    intro f c hop hk hc hcid hq
+    rcases hfin (k + d) (by omega) (by omega) f c hop hc hcid with h | h | h
+    · subst h; simpa [finSub, Ctx.commit, Ctx.setKeepRetry] using hq
+    · subst h; cases hk
+    · cases f with
+      | keep => simpa [finSub, Ctx.commit] using h
+      | unsent => simpa [finSub, Ctx.commit, Ctx.setKeepUnsent] using h
+      | retry => simpa [finSub, Ctx.commit, Ctx.setKeepRetry] using hq
+      | drop => cases hk
+
 end Subs
